@@ -762,8 +762,16 @@ func handleBitwise(left, right interface{}, operator token.Token) interface{} {
 	case token.XOR:
 		return float64(leftInt ^ rightInt)
 	case token.LEFT_SHIFT:
+		if rightInt < 0 {
+			utils.RuntimeError(operator, "Shift count must not be negative.")
+			return nil
+		}
 		return float64(leftInt << rightInt)
 	case token.RIGHT_SHIFT:
+		if rightInt < 0 {
+			utils.RuntimeError(operator, "Shift count must not be negative.")
+			return nil
+		}
 		return float64(leftInt >> rightInt)
 	case token.POWER:
 		return math.Pow(float64(leftInt), float64(rightInt))
